@@ -137,6 +137,54 @@ theorem dedup_complete (a : Members) (xs : List (List String × String)) (x) (hx
       exact List.Sublist.subset (List.Sublist.map _ this.sublist) h1
     · exact ih _ h
 
+/-- a member of the finished archive was either there before or is an offered file whose destination was free -/
+theorem member_origin (a : Members) (xs : List (List String × String)) (x) (hx : x ∈ appendAll a xs) :
+    x ∈ a ∨ (x ∈ xs ∧ (a.any (·.1 == x.1)) = false) := by
+  unfold appendAll at hx
+  induction xs generalizing a with
+  | nil => exact Or.inl hx
+  | cons y ys ih =>
+    simp only [List.foldl_cons] at hx
+    rcases ih _ hx with h | ⟨h1, h2⟩
+    · unfold appendFile at h
+      split at h
+      · exact Or.inl h
+      · rename_i hn
+        rcases List.mem_append.mp h with h | h
+        · exact Or.inl h
+        · simp only [List.mem_singleton] at h
+          subst h
+          refine Or.inr ⟨by simp, ?_⟩
+          cases hany : a.any (·.1 == y.1) with
+          | false => rfl
+          | true => exact absurd hany hn
+    · refine Or.inr ⟨List.mem_cons_of_mem _ h1, ?_⟩
+      have hp := appendFile_prefix a y.1 y.2
+      cases hany : a.any (·.1 == x.1) with
+      | false => rfl
+      | true =>
+        obtain ⟨e, he, heq⟩ := List.any_eq_true.mp hany
+        have : (appendFile a y.1 y.2).any (·.1 == x.1) = true :=
+          List.any_eq_true.mpr ⟨e, List.Sublist.subset hp.sublist he, heq⟩
+        rw [this] at h2; cases h2
+
+/-- **the archive's own metadata is always the fresh, in-memory one**: whatever files the target directory and the
+    configured includes contribute — including stale `target/nextest/*-metadata.json` left by an earlier extraction into
+    this very target directory — an entry of the finished archive under a metadata name comes from memory, so
+    listing or running from the archive sees the build it was made from -/
+theorem metadata_is_fresh (metadata : List (List String)) (files : List (List String × String)) (x)
+    (hx : x ∈ archiveMembers metadata files) (hm : x.1 ∈ metadata) : x.2 = "<memory>" := by
+  unfold archiveMembers at hx
+  rcases member_origin _ _ _ hx with h | ⟨_, h2⟩
+  · obtain ⟨p, _, rfl⟩ := List.mem_map.mp h; rfl
+  · have : ((metadata.map fun p => (p, "<memory>")).any (·.1 == x.1)) = true :=
+      List.any_eq_true.mpr ⟨(x.1, "<memory>"), List.mem_map.mpr ⟨x.1, hm, rfl⟩, by simp⟩
+    rw [this] at h2; cases h2
+
+example : archiveMembers [["target", "nextest", "binaries-metadata.json"]]
+    [(["target", "debug", "t"], "disk"), (["target", "nextest", "binaries-metadata.json"], "stale-on-disk")] =
+    [(["target", "nextest", "binaries-metadata.json"], "<memory>"), (["target", "debug", "t"], "disk")] := by decide
+
 /-! ## Extraction stays inside `<destination>/target` -/
 
 private theorem firstBad_none : ∀ cs, firstBad cs = none → normals cs = cs.map (fun c => match c with | .normal s => s | _ => []) ∧ ∀ c ∈ cs, ∃ s, c = .normal s := by
